@@ -28,7 +28,7 @@ PATHS = ("cwrite", "block_to_file", "to_tim", "to_dat", "to_spec", "to_fft")
 
 def REQUIRED(tier):
     return ["view:byteswapped", "readback_blocks_held", "readback_overlapping_plan", "prep_outfile:no_arguments", "path:cwrite", "path:block_to_file", "path:to_tim", "path:to_dat", "path:to_spec", "path:to_fft",
-            "readback_compared", "declared_width_checked", "spy:cwrite_calls", "dtype_mismatch_cases", "multi_call_writes", "path:reuse_name", "reuse_name:equal_length_products", "dotted_basename_pairs"]
+            "readback_compared", "declared_width_checked", "spy:cwrite_calls", "dtype_mismatch_cases", "multi_call_writes", "path:reuse_name", "reuse_name:equal_length_products", "dotted_basename_pairs", "path:tim_depths"]
 
 
 def cases(tier, seed):
@@ -44,6 +44,11 @@ def cases(tier, seed):
         for dt in DTYPES:
             k += 1
             yield {"path": path, "dtype": dt, "nsamps": int(rng.integers(1, 200)), "nchans": int(rng.integers(1, 17)), "dseed": int(seed) * 7919 + k}
+    for depth in (8, 16, 32):
+        for ncalls in (1, 3):
+            for _ in range(2 if tier == "quick" else 20):
+                k += 1
+                yield {"path": "tim_depths", "depth": depth, "nsamps": int(rng.integers(2, 1500)), "ncalls": ncalls, "dseed": int(seed) * 7919 + k}
     for depth in DEPTHS:   # one long gulp written in a single call (piece-wise conversion paths)
         for dt in ("int64", "float64", "uint8" if depth <= 8 else "float32"):
             k += 1
@@ -85,14 +90,14 @@ def setup_worker(ctx):
     _spy["installed"] = True
 
 
-def _mk_header(nchans, nbits, nsamps, path, data_type="filterbank", dm=0.0):
+def _mk_header(nchans, nbits, nsamps, path, data_type="filterbank", dm=0.0, tstart=59000.123456789):
     from sigpyproc.header import Header
 
     # every third product belongs to an observation whose source name / raw-file path is longer than 80 characters
     _mk_header.n = getattr(_mk_header, "n", 0) + 1
     long_names = _mk_header.n % 3 == 0
     return Header(filename=path, data_type=data_type, nchans=nchans, foff=-0.5, fch1=1400.25, nbits=nbits, tsamp=6.4e-5 * 3,
-                  tstart=59000.123456789, nsamples=nsamps, dm=dm, source="J0437-4715" + ("_drift-scan-field" * 6 if long_names else ""), telescope="Parkes", backend="BPSR",
+                  tstart=tstart, nsamples=nsamps, dm=dm, source="J0437-4715" + ("_drift-scan-field" * 6 if long_names else ""), telescope="Parkes", backend="BPSR",
                   rawdatafile="/data/archive/2017/09/04/beam01/" + "uwl_" * 20 + "raw.sf" if long_names else "raw.sf")
 
 
@@ -335,8 +340,45 @@ def _run_block_to_file(case, ctx):
     os.unlink(name)
 
 
-def _ts_header(ns, path, dm):
-    return _mk_header(1, 32, ns, path, data_type="time series", dm=dm)
+_EPOCHS = (59000.123456789, 59000.0 + 3.2 / 86400.0, 59000.0, 58999.0 + 5.0e-05, 59000.999995)   # incl. starts within seconds of 0h UTC
+
+
+def _ts_header(ns, path, dm, nbits=32):
+    _ts_header.n = getattr(_ts_header, "n", 0) + 1
+    return _mk_header(1, nbits, ns, path, data_type="time series", dm=dm, tstart=_EPOCHS[_ts_header.n % len(_EPOCHS)])
+
+
+def _run_tim_depths(case, ctx):
+    """A SIGPROC time series written at 8/16/32 bits through prep_outfile + cwrite and read back with its matching reader."""
+    from sigpyproc.timeseries import TimeSeries
+
+    ns, depth = case["nsamps"], case["depth"]
+    rng = np.random.default_rng([case["dseed"], 9])
+    x = _values(rng, ns, depth).astype({8: "uint8", 16: "uint16", 32: "float32"}[depth])
+    dm = float(rng.integers(0, 2000)) / 8
+    ctx.evaluated(); ctx.count("path:tim_depths")
+    out = os.path.join(ctx.tmp, f"c04td_{ctx.evaluations}.tim")
+    hdr = _ts_header(ns, out, dm, nbits=depth)
+    w = hdr.prep_outfile(out, nbits=depth)
+    for part in np.array_split(x, min(case.get("ncalls", 1), ns)):
+        w.cwrite(part)
+    w.close()
+    d, hl, raw = sigfile.parse_file(out)
+    ctx.count("declared_width_checked")
+    if d["nbits"] != depth or len(raw) != ns * depth // 8:
+        ctx.violation("written-width-differs:tim_depths", f"declared nbits={d['nbits']}, {len(raw)} bytes for {ns} samples of {depth} bits", case)
+        return
+    try:
+        back = TimeSeries.from_tim(out)
+    except Exception as exc:  # noqa: BLE001
+        ctx.violation(f"from_tim-raised:{type(exc).__name__}@{exc_site(exc)}", f"from_tim of a {depth}-bit .tim product raised {fmt_exc(exc)}", case)
+        return
+    ctx.count("readback_compared")
+    if back.nsamples != ns or not np.array_equal(np.asarray(back.data, dtype=np.float64), x.astype(np.float64)):
+        ctx.violation("readback-values:tim_depths", f"from_tim of a {depth}-bit .tim product returned {back.nsamples} samples / different values ({ns} written)", case)
+    _timing_ok(ctx, case, hdr, back.header, "tim_depths", dm=dm)
+    ctx.nontrivial_case(case)
+    os.unlink(out)
 
 
 def _run_to_tim(case, ctx):
